@@ -293,7 +293,7 @@ Definition nth_slice (r : list slice) (i : nat) : M slice := lift (nth_error r i
 
 (* Wrap(block, cek) *)
 Definition kw_wrap (cek : slice) : M res :=
-  if negb (slen cek mod 8 =? 0) then ret ([nil_slice], EOther)
+  if (slen cek =? 0) || negb (slen cek mod 8 =? 0) then ret ([nil_slice], EOther)   (* C03 fix: empty key data refused *)
   else
     a <- alloc 8 ;;
     copy_cells a default_iv ;;;
